@@ -527,3 +527,475 @@ func replaceChild(parent ast.Node, old *ast.Ident, repl ast.Expr) bool {
 	}
 	return false
 }
+
+// Loops over a container. The element of the current iteration can be spelled
+// `v` (range value) or `S[i]` (indexing the ranged container with the range
+// key), and a counting loop `for i := 0; i < len(S); i++` is `for i := range S`.
+// canonLoops rewrites, in place, towards one spelling — a range statement with
+// a value variable — whenever the body neither assigns to S, S[i] or the key,
+// nor takes the address of S[i], nor hands S itself to a call:
+//
+//	for i := 0; i < len(S); i++ { B }        →  for i := range S { B }
+//	for i := range S { v := S[i]; B }        →  for i, v := range S { B }
+//	for i[, v] := range S { … S[i] … }       →  for i, v := range S { … v … }
+func (p *Prog) canonLoops(info *types.Info, body *ast.BlockStmt) {
+	var visit func(n ast.Node) bool
+	visit = func(n ast.Node) bool {
+		switch t := n.(type) {
+		case *ast.BlockStmt:
+			for i, s := range t.List {
+				t.List[i] = p.canonLoopStmt(info, s)
+			}
+		case *ast.CaseClause:
+			for i, s := range t.Body {
+				t.Body[i] = p.canonLoopStmt(info, s)
+			}
+		case *ast.CommClause:
+			for i, s := range t.Body {
+				t.Body[i] = p.canonLoopStmt(info, s)
+			}
+		case *ast.LabeledStmt:
+			t.Stmt = p.canonLoopStmt(info, t.Stmt)
+		}
+		return true
+	}
+	ast.Inspect(body, visit)
+}
+
+func (p *Prog) canonLoopStmt(info *types.Info, s ast.Stmt) ast.Stmt {
+	if fs, ok := s.(*ast.ForStmt); ok {
+		if rs := countingLoop(info, fs); rs != nil {
+			s = rs
+		}
+	}
+	rs, ok := s.(*ast.RangeStmt)
+	if !ok || rs.Tok != token.DEFINE || rs.Key == nil {
+		return s
+	}
+	key, _ := rs.Key.(*ast.Ident)
+	if key == nil || key.Name == "_" {
+		return s
+	}
+	kobj := info.Defs[key]
+	if kobj == nil || !simplePath(rs.X) {
+		return s
+	}
+	switch info.TypeOf(rs.X).Underlying().(type) {
+	case *types.Slice, *types.Map, *types.Array:
+	default:
+		return s
+	}
+	if _, isPtr := info.TypeOf(rs.X).Underlying().(*types.Pointer); isPtr {
+		return s
+	}
+	isElem := func(e ast.Expr) bool {
+		ix, ok := ast.Unparen(e).(*ast.IndexExpr)
+		if !ok {
+			return false
+		}
+		id, ok := ast.Unparen(ix.Index).(*ast.Ident)
+		return ok && info.Uses[id] == kobj && sameSimple(info, ix.X, rs.X)
+	}
+	// may the body change S, S[i] or the key, or let S[i] escape by reference?
+	unsafe := false
+	var valObj types.Object
+	if v, ok := rs.Value.(*ast.Ident); ok && v.Name != "_" {
+		valObj = info.Defs[v]
+	}
+	rootIs := func(e ast.Expr, pred func(ast.Expr) bool) bool {
+		for {
+			if pred(e) {
+				return true
+			}
+			switch t := ast.Unparen(e).(type) {
+			case *ast.SelectorExpr:
+				if info.Selections[t] == nil {
+					return false
+				}
+				e = t.X
+			case *ast.IndexExpr:
+				e = t.X
+			case *ast.StarExpr:
+				e = t.X
+			case *ast.SliceExpr:
+				e = t.X
+			default:
+				return false
+			}
+		}
+	}
+	isS := func(e ast.Expr) bool { return sameSimple(info, e, rs.X) }
+	isKey := func(e ast.Expr) bool {
+		id, ok := ast.Unparen(e).(*ast.Ident)
+		return ok && (info.Uses[id] == kobj)
+	}
+	isVal := func(e ast.Expr) bool {
+		id, ok := ast.Unparen(e).(*ast.Ident)
+		return ok && valObj != nil && info.Uses[id] == valObj
+	}
+	written := func(l ast.Expr) {
+		if rootIs(l, isS) || isKey(l) || rootIs(l, isVal) {
+			unsafe = true
+		}
+	}
+	ast.Inspect(rs.Body, func(n ast.Node) bool {
+		switch t := n.(type) {
+		case *ast.AssignStmt:
+			for _, l := range t.Lhs {
+				if id, ok := l.(*ast.Ident); ok && t.Tok == token.DEFINE && info.Defs[id] != nil {
+					continue
+				}
+				written(l)
+			}
+		case *ast.IncDecStmt:
+			written(t.X)
+		case *ast.RangeStmt:
+			if t.Tok == token.ASSIGN {
+				if t.Key != nil {
+					written(t.Key)
+				}
+				if t.Value != nil {
+					written(t.Value)
+				}
+			}
+		case *ast.UnaryExpr:
+			if t.Op == token.AND && (rootIs(t.X, isS) || rootIs(t.X, isVal)) {
+				unsafe = true
+			}
+		case *ast.CallExpr:
+			for _, a := range t.Args {
+				if isS(a) {
+					if id, ok := ast.Unparen(t.Fun).(*ast.Ident); ok {
+						if b, ok := info.Uses[id].(*types.Builtin); ok && (b.Name() == "len" || b.Name() == "cap") {
+							continue
+						}
+					}
+					unsafe = true
+				}
+			}
+			// a method with a pointer receiver called on S[i] may modify the element
+			if sel, ok := ast.Unparen(t.Fun).(*ast.SelectorExpr); ok {
+				if s := info.Selections[sel]; s != nil && s.Kind() == types.MethodVal && rootIs(sel.X, isElem) {
+					if sig, ok := s.Obj().Type().(*types.Signature); ok && sig.Recv() != nil {
+						if _, ptr := sig.Recv().Type().(*types.Pointer); ptr {
+							if _, elemPtr := info.TypeOf(sel.X).Underlying().(*types.Pointer); !elemPtr {
+								if fn, ok := s.Obj().(*types.Func); !ok || p.mutatesReceiver(fn, 2) {
+									unsafe = true
+								}
+							}
+						}
+					}
+				}
+			}
+		}
+		return !unsafe
+	})
+	if unsafe {
+		return s
+	}
+	// `v := S[i]` as the first statement becomes the range value
+	if valObj == nil && len(rs.Body.List) > 0 {
+		if as, ok := rs.Body.List[0].(*ast.AssignStmt); ok && as.Tok == token.DEFINE && len(as.Lhs) == 1 && len(as.Rhs) == 1 && isElem(as.Rhs[0]) {
+			if id, ok := as.Lhs[0].(*ast.Ident); ok && id.Name != "_" && info.Defs[id] != nil {
+				if et := info.TypeOf(as.Rhs[0]); et != nil && types.Identical(et, info.Defs[id].Type()) {
+					rs.Value = id
+					valObj = info.Defs[id]
+					rs.Body.List = rs.Body.List[1:]
+				}
+			}
+		}
+	}
+	// remaining S[i] → v
+	var elems []*ast.IndexExpr
+	ast.Inspect(rs.Body, func(n ast.Node) bool {
+		if ix, ok := n.(*ast.IndexExpr); ok && isElem(ix) {
+			elems = append(elems, ix)
+			return false
+		}
+		return true
+	})
+	if len(elems) == 0 {
+		return s
+	}
+	if valObj == nil {
+		et := info.TypeOf(elems[0])
+		if et == nil {
+			return s
+		}
+		v := types.NewVar(key.Pos(), kobj.Pkg(), key.Name+"_elem", et)
+		id := &ast.Ident{NamePos: key.Pos(), Name: v.Name()}
+		info.Defs[id] = v
+		rs.Value = id
+		valObj = v
+	}
+	for _, ix := range elems {
+		use := &ast.Ident{NamePos: ix.Pos(), Name: valObj.Name()}
+		info.Uses[use] = valObj
+		if tv, ok := info.Types[ix]; ok {
+			info.Types[use] = tv
+		}
+		replaceExpr(rs.Body, ix, use)
+	}
+	return s
+}
+
+// countingLoop recognises `for i := 0; i < len(S); i++ { B }` with B not writing i and not
+// assigning S, and returns the equivalent `for i := range S { B }`.
+func countingLoop(info *types.Info, fs *ast.ForStmt) *ast.RangeStmt {
+	init, ok := fs.Init.(*ast.AssignStmt)
+	if !ok || init.Tok != token.DEFINE || len(init.Lhs) != 1 || len(init.Rhs) != 1 {
+		return nil
+	}
+	key, ok := init.Lhs[0].(*ast.Ident)
+	if !ok || info.Defs[key] == nil {
+		return nil
+	}
+	kobj := info.Defs[key]
+	if tv, ok := info.Types[init.Rhs[0]]; !ok || tv.Value == nil || tv.Value.String() != "0" {
+		return nil
+	}
+	cond, ok := ast.Unparen(fs.Cond).(*ast.BinaryExpr)
+	if !ok || cond.Op != token.LSS {
+		return nil
+	}
+	if id, ok := ast.Unparen(cond.X).(*ast.Ident); !ok || info.Uses[id] != kobj {
+		return nil
+	}
+	lc, ok := ast.Unparen(cond.Y).(*ast.CallExpr)
+	if !ok || len(lc.Args) != 1 {
+		return nil
+	}
+	if id, ok := ast.Unparen(lc.Fun).(*ast.Ident); !ok || id.Name != "len" {
+		return nil
+	} else if _, isB := info.Uses[id].(*types.Builtin); !isB {
+		return nil
+	}
+	S := lc.Args[0]
+	if !simplePath(S) {
+		return nil
+	}
+	switch info.TypeOf(S).Underlying().(type) {
+	case *types.Slice, *types.Array:
+	default:
+		return nil
+	}
+	post, ok := fs.Post.(*ast.IncDecStmt)
+	if !ok || post.Tok != token.INC {
+		return nil
+	}
+	if id, ok := ast.Unparen(post.X).(*ast.Ident); !ok || info.Uses[id] != kobj {
+		return nil
+	}
+	bad := false
+	ast.Inspect(fs.Body, func(n ast.Node) bool {
+		chk := func(l ast.Expr) {
+			if id, ok := ast.Unparen(l).(*ast.Ident); ok && info.Uses[id] == kobj {
+				bad = true
+			}
+			if sameSimple(info, l, S) {
+				bad = true
+			}
+		}
+		switch t := n.(type) {
+		case *ast.AssignStmt:
+			for _, l := range t.Lhs {
+				chk(l)
+			}
+		case *ast.IncDecStmt:
+			chk(t.X)
+		case *ast.UnaryExpr:
+			if t.Op == token.AND {
+				chk(t.X)
+			}
+		case *ast.BranchStmt:
+			// `continue` in a 3-clause loop runs the post statement; a range loop advances too: same
+		}
+		return !bad
+	})
+	if bad {
+		return nil
+	}
+	return &ast.RangeStmt{For: fs.For, Key: key, TokPos: init.TokPos, Tok: token.DEFINE, Range: init.TokPos, X: S, Body: fs.Body}
+}
+
+// simplePath: identifiers and field selections only.
+func simplePath(e ast.Expr) bool {
+	for {
+		switch t := ast.Unparen(e).(type) {
+		case *ast.Ident:
+			return true
+		case *ast.SelectorExpr:
+			e = t.X
+		default:
+			return false
+		}
+	}
+}
+
+// sameSimple: two simple paths denote the same variable / field path.
+func sameSimple(info *types.Info, a, b ast.Expr) bool {
+	a, b = ast.Unparen(a), ast.Unparen(b)
+	switch x := a.(type) {
+	case *ast.Ident:
+		y, ok := b.(*ast.Ident)
+		if !ok {
+			return false
+		}
+		ox, oy := info.Uses[x], info.Uses[y]
+		if ox == nil {
+			ox = info.Defs[x]
+		}
+		if oy == nil {
+			oy = info.Defs[y]
+		}
+		return ox != nil && ox == oy
+	case *ast.SelectorExpr:
+		y, ok := b.(*ast.SelectorExpr)
+		if !ok || x.Sel.Name != y.Sel.Name {
+			return false
+		}
+		if info.Selections[x] == nil || info.Selections[y] == nil {
+			return info.Uses[x.Sel] != nil && info.Uses[x.Sel] == info.Uses[y.Sel]
+		}
+		return sameSimple(info, x.X, y.X)
+	}
+	return false
+}
+
+// replaceExpr substitutes repl for the expression node old below root.
+func replaceExpr(root ast.Node, old ast.Expr, repl ast.Expr) bool {
+	done := false
+	ast.Inspect(root, func(n ast.Node) bool {
+		if done || n == nil {
+			return false
+		}
+		v := reflect.ValueOf(n)
+		if v.Kind() != reflect.Ptr || v.IsNil() {
+			return true
+		}
+		s := v.Elem()
+		if s.Kind() != reflect.Struct {
+			return true
+		}
+		for i := 0; i < s.NumField() && !done; i++ {
+			f := s.Field(i)
+			switch {
+			case f.Kind() == reflect.Interface && f.Type() == exprIface:
+				if !f.IsNil() && f.Interface() == old && f.CanSet() {
+					f.Set(reflect.ValueOf(repl))
+					done = true
+				}
+			case f.Kind() == reflect.Slice && f.Type().Elem() == exprIface:
+				for j := 0; j < f.Len(); j++ {
+					el := f.Index(j)
+					if !el.IsNil() && el.Interface() == old {
+						el.Set(reflect.ValueOf(repl))
+						done = true
+						break
+					}
+				}
+			}
+		}
+		return !done
+	})
+	return done
+}
+
+// mutatesReceiver reports whether a method may write through its receiver
+// (conservatively: unknown bodies, stores rooted at the receiver, its address
+// or the receiver itself handed on to anything but a non-mutating method).
+func (p *Prog) mutatesReceiver(fn *types.Func, depth int) bool {
+	if v, ok := p.mutRecv[fn]; ok {
+		return v
+	}
+	if p.mutRecv == nil {
+		p.mutRecv = map[*types.Func]bool{}
+	}
+	p.mutRecv[fn] = true // recursion guard: assume the worst
+	f := p.DepFunc(fn)
+	if f == nil || f.Decl == nil || f.Decl.Recv == nil || len(f.Decl.Recv.List) != 1 || depth < 0 {
+		return true
+	}
+	if len(f.Decl.Recv.List[0].Names) == 0 {
+		p.mutRecv[fn] = false
+		return false
+	}
+	info := f.Info()
+	recv := info.Defs[f.Decl.Recv.List[0].Names[0]]
+	if recv == nil {
+		p.mutRecv[fn] = false
+		return false
+	}
+	isRecv := func(e ast.Expr) bool {
+		id, ok := ast.Unparen(e).(*ast.Ident)
+		return ok && info.Uses[id] == recv
+	}
+	rooted := func(e ast.Expr) bool {
+		for {
+			if isRecv(e) {
+				return true
+			}
+			switch t := ast.Unparen(e).(type) {
+			case *ast.SelectorExpr:
+				if info.Selections[t] == nil {
+					return false
+				}
+				e = t.X
+			case *ast.IndexExpr:
+				e = t.X
+			case *ast.StarExpr:
+				e = t.X
+			case *ast.SliceExpr:
+				e = t.X
+			default:
+				return false
+			}
+		}
+	}
+	mut := false
+	ast.Inspect(f.Body, func(n ast.Node) bool {
+		switch t := n.(type) {
+		case *ast.AssignStmt:
+			for _, l := range t.Lhs {
+				if rooted(l) && !isRecv(l) {
+					mut = true
+				}
+			}
+			// aliasing the receiver (q := r) is not followed
+			for _, r := range t.Rhs {
+				if isRecv(r) {
+					mut = true
+				}
+			}
+		case *ast.IncDecStmt:
+			if rooted(t.X) {
+				mut = true
+			}
+		case *ast.UnaryExpr:
+			if t.Op == token.AND && rooted(t.X) {
+				mut = true
+			}
+		case *ast.CallExpr:
+			for _, a := range t.Args {
+				if isRecv(a) {
+					mut = true
+				}
+			}
+			if sel, ok := ast.Unparen(t.Fun).(*ast.SelectorExpr); ok && rooted(sel.X) {
+				if s := info.Selections[sel]; s != nil && s.Kind() == types.MethodVal {
+					if callee, ok := s.Obj().(*types.Func); ok {
+						sig := callee.Type().(*types.Signature)
+						if _, ptr := sig.Recv().Type().(*types.Pointer); ptr {
+							if _, isIface := sig.Recv().Type().Underlying().(*types.Interface); isIface || p.mutatesReceiver(callee.Origin(), depth-1) {
+								mut = true
+							}
+						}
+					}
+				}
+			}
+		}
+		return !mut
+	})
+	p.mutRecv[fn] = mut
+	return mut
+}
